@@ -268,8 +268,10 @@ def drv_case(shape, places, outs=(), ports=(), via=None, tag=""):
     for lo, hi, mod, dom, form, wrap in places:
         mods[mod]["st"].append([dom, form_target(form, lo, hi, fresh), int(wrap)])
     for kind, lo, hi, mod in outs:
-        t = ["sig", 0] if (lo, hi) == (0, 4) and kind != "mem" else ["sl", ["sig", 0], lo, hi]
-        if kind == "instcat":
+        t = ["sig", 0] if (lo, hi) == (0, 4) and kind not in ("mem", "memsync") else ["sl", ["sig", 0], lo, hi]
+        if kind == "memsync":
+            mods[mod]["sub"].append({"out": "mem", "dom": "a", "t": [["sl", ["sig", 0], lo, hi]]})
+        elif kind == "instcat":
             mods[mod]["sub"].append({"out": "inst", "t": [["cat", [["sl", ["sig", 0], lo, hi], ["sig", fresh(1)]]]]})
         else:
             mods[mod]["sub"].append({"out": kind, "t": [t]})
@@ -283,18 +285,19 @@ def gen_drv(tier, rng):
     cases = []
     thorough = tier == "thorough"
     slots = [(lo, hi, mod, dom) for (lo, hi) in RANGES for mod in range(3) for dom in DOMS]      # 90
-    # (1) all ordered pairs of placements
-    n = 0
+    # (1) all ordered pairs of placements; every choice below is a digit of the counter of EMITTED cases, so no
+    # filter can alias with the form / tree-shape / If-wrap / entry-point selection
+    n = k = 0
     for p, q in itertools.product(slots, slots):
         n += 1
-        fsel = FORMS if thorough and n % 3 == 0 else [FORMS[n % len(FORMS)]]
-        for j, f1 in enumerate(fsel):
-            f2 = FORMS[(n // len(FORMS) + j) % len(FORMS)]
-            if not thorough and n % 7 and p[2:] != q[2:]:
-                continue
-            cases.append(drv_case("fan" if n % 3 else "chain",
-                                  [p + (f1, n % 7 == 0), q + (f2, n % 11 == 0)],
-                                  via="rtlil" if n % 13 == 0 else None, tag="pair"))
+        if not thorough and n % 7 and p[2:] != q[2:]:
+            continue
+        for j in range(len(FORMS) if thorough and n % 3 == 0 else 1):
+            f1, f2 = FORMS[(k + j) % len(FORMS)], FORMS[(k // len(FORMS)) % len(FORMS)]
+            cases.append(drv_case("fan" if (k // 36) % 2 else "chain",
+                                  [p + (f1, (k // 72) % 5 == 0), q + (f2, (k // 72) % 7 == 3)],
+                                  via="rtlil" if k % 13 == 0 else None, tag="pair"))
+            k += 1
     # same-module pairs with every form combination (early check; S2 lives here)
     for (lo1, hi1), (lo2, hi2) in itertools.product(RANGES, RANGES):
         for d1, d2 in itertools.product(DOMS, DOMS):
@@ -315,24 +318,27 @@ def gen_drv(tier, rng):
             ps = [r + p[2:] for r, p in zip(rs, ps)]
         outs = []
         if rng.random() < 0.3:
-            outs.append((rng.choice(["inst", "mem", "iob", "instcat"]),) + rng.choice(RANGES) + (rng.randrange(3),))
+            outs.append((rng.choice(["inst", "mem", "memsync", "iob", "instcat"]),) + rng.choice(RANGES) + (rng.randrange(3),))
         ports = [(0, rng.choice("nio"))] if rng.random() < 0.3 else []
         cases.append(drv_case(rng.choice(["fan", "chain"]), ps, outs, ports, tag="triple"))
-    # (3) placement x output
-    n = 0
+    # (3) placement x output (digits of the emitted-case counter again)
+    n = k = 0
+    okinds = ("inst", "mem", "memsync", "iob", "instcat")
     for p in slots:
-        for kind in ("inst", "mem", "iob", "instcat"):
+        for kind in okinds:
             for (lo, hi) in RANGES:
                 for mod in range(3):
                     n += 1
                     if not thorough and n % 8:
                         continue
-                    cases.append(drv_case("fan" if n % 2 else "chain", [p + (FORMS[n % len(FORMS)], False)],
+                    cases.append(drv_case("fan" if (k // len(FORMS)) % 2 else "chain",
+                                          [p + (FORMS[k % len(FORMS)], (k // 12) % 4 == 0)],
                                           [(kind, lo, hi, mod)], tag="logic+out"))
+                    k += 1
     # (4) output x output
-    for k1, k2 in itertools.product(("inst", "mem", "iob"), repeat=2):
+    for k1, k2 in itertools.product(("inst", "mem", "memsync", "iob"), repeat=2):
         for r1, r2 in itertools.product(RANGES, RANGES):
-            if not thorough and rng.random() < 0.5:
+            if not thorough and rng.random() < 0.7:
                 continue
             cases.append(drv_case("fan", [], [(k1,) + r1 + (1,), (k2,) + r2 + (2,)], tag="out+out"))
     # (5) ports
